@@ -187,6 +187,9 @@ struct Value {
                 free(val);
                 if (!do_exec(fun)) {
                     fprintf(stderr, "unknown function %s: expression left as is\n", fun);
+                    // the argument's value was assigned above; go back to the expression itself
+                    type = T_STRING;
+                    str = v;
                 } else return;
             }
         }
